@@ -210,6 +210,22 @@ func TestVerifC22(t *testing.T) {
 		return got, want
 	}
 
+	// A member that cannot read the safe block hash must not come up with a seed of its
+	// own (it would elect another leader than everybody else): getSeed has to fail.
+	for _, w := range []uint64{1, 4} {
+		e := c22Executor(c22Case{Key: 0, Hash: 0, Window: w}, "AB")
+		e.chain = &c22Chain{hashes: map[uint64][32]byte{}} // every hash lookup fails
+		var seed [32]byte
+		var err error
+		if p, stack := vrep.Guard(func() { seed, err = e.getSeed(w * coordinationFrequencyBlocks) }); p != nil {
+			r.ViolationMin("seed-panic", int(w), fmt.Sprintf("window=%d hash lookup fails", w), fmt.Sprintf("getSeed panicked: %v\n%s", p, stack), nil)
+		} else if err == nil {
+			r.ViolationMin("seed-without-hash", int(w), fmt.Sprintf("window=%d hash lookup fails", w),
+				fmt.Sprintf("the safe block hash could not be read but getSeed returned seed %x without an error", seed), nil)
+		}
+		r.Eval(1)
+		r.Outcome("seed: lookup failure reported")
+	}
 	if rd := r.ReplayData(); rd != nil {
 		var c c22Case
 		if json.Unmarshal(rd, &c) == nil && c.Window != 0 {
